@@ -285,6 +285,9 @@ func c04(c *Ctx) {
 		class := classFor(i, rng, tallEvery)
 		mode := modeFor(i, rng)
 		b := model.Gen(rng, class, model.GenOpts{Syn: rng.Intn(3) == 0, Vec: VecBuild && rng.Intn(2) == 0})
+		if class == "tall" {
+			forceDV(b, rng)
+		}
 		fp := b.Fingerprint()
 		id := fmt.Sprintf("b%d", i)
 		if !c.Case(id, caseDesc{Class: class, Mode: mode, Docs: len(b.Docs), FP: fpString(fp)}) {
